@@ -215,6 +215,12 @@ func (l *Location) HumanStringWithSource(source string, style bool, colorizer co
 		return result.String(), nil
 	}
 
+	// A span may reach past the end of the source: the END_OF_FILE token
+	// starts at len(source). Clamp the offsets so that
+	// slicing the source below never goes out of bounds.
+	startByte := min(max(l.StartPos.ByteOffset, 0), len(source))
+	endByte := min(max(l.EndPos.ByteOffset, startByte-1), len(source)-1)
+
 	var startOffset int
 	result.WriteString("\n  ")
 	lineNumberStr := fmt.Sprint(l.StartPos.Line)
@@ -226,27 +232,27 @@ func (l *Location) HumanStringWithSource(source string, style bool, colorizer co
 	result.WriteString(faintColor.Sprint(" | "))
 	startOffset += 5 + len(lineNumberStr)
 
-	lineStartIndex := strings.LastIndexByte(source[:l.StartPos.ByteOffset], '\n')
+	lineStartIndex := strings.LastIndexByte(source[:startByte], '\n')
 	if lineStartIndex == -1 {
 		lineStartIndex = 0
 	}
-	lineEndIndex := strings.IndexByte(source[l.StartPos.ByteOffset:], '\n')
+	lineEndIndex := strings.IndexByte(source[startByte:], '\n')
 	if lineEndIndex == -1 {
 		lineEndIndex = len(source)
 	} else {
-		lineEndIndex = l.StartPos.ByteOffset + lineEndIndex
+		lineEndIndex = startByte + lineEndIndex
 	}
-	errorSourceLength := utf8.RuneCountInString(source[l.StartPos.ByteOffset : l.EndPos.ByteOffset+1])
+	errorSourceLength := utf8.RuneCountInString(source[startByte : endByte+1])
 	var currentSourceLength int
 	var currentErrorLength int
 	var ellipsisStart bool
 	var ellipsisEnd bool
-	sourceFragmentStartIndex := l.StartPos.ByteOffset
-	sourceFragmentEndIndex := l.EndPos.ByteOffset + 1
+	sourceFragmentStartIndex := startByte
+	sourceFragmentEndIndex := endByte + 1
 
 	if errorSourceLength < maxSourceExampleLength {
 		leftLength := maxSourceExampleLength - errorSourceLength
-		beforeSource := source[:l.StartPos.ByteOffset]
+		beforeSource := source[:startByte]
 	backtrackLoop:
 		for {
 			if leftLength == 0 {
@@ -267,12 +273,12 @@ func (l *Location) HumanStringWithSource(source string, style bool, colorizer co
 			startOffset += len(ellipsis)
 		}
 		sourceFragmentStartIndex = len(beforeSource)
-		s := source[sourceFragmentStartIndex:l.StartPos.ByteOffset]
+		s := source[sourceFragmentStartIndex:startByte]
 		startOffset += utf8.RuneCountInString(s)
 	}
 
-	exampleEnd := min(lineEndIndex, l.EndPos.ByteOffset)
-	for i := range source[l.StartPos.ByteOffset : exampleEnd+1] {
+	exampleEnd := min(lineEndIndex, endByte)
+	for i := range source[startByte : exampleEnd+1] {
 		if currentSourceLength >= maxSourceExampleLength {
 			if i < lineEndIndex-1 {
 				ellipsisEnd = true
@@ -281,9 +287,9 @@ func (l *Location) HumanStringWithSource(source string, style bool, colorizer co
 		}
 		currentSourceLength++
 		currentErrorLength++
-		sourceFragmentEndIndex = l.StartPos.ByteOffset + i
+		sourceFragmentEndIndex = startByte + i
 	}
-	for i := range source[exampleEnd:lineEndIndex] {
+	for i := range source[max(exampleEnd, 0):lineEndIndex] {
 		if currentSourceLength >= maxSourceExampleLength {
 			if i < lineEndIndex-1 {
 				ellipsisEnd = true
@@ -292,12 +298,12 @@ func (l *Location) HumanStringWithSource(source string, style bool, colorizer co
 		}
 
 		currentSourceLength++
-		sourceFragmentEndIndex = l.EndPos.ByteOffset + i
+		sourceFragmentEndIndex = endByte + i
 	}
 	if ellipsisStart {
 		result.WriteString(faintColor.Sprint(ellipsis))
 	}
-	sourceFragment := source[sourceFragmentStartIndex : sourceFragmentEndIndex+1]
+	sourceFragment := source[sourceFragmentStartIndex:min(sourceFragmentEndIndex+1, len(source))]
 	var sourceFragmentBuff strings.Builder
 	// replace tabs with spaces
 	for _, char := range sourceFragment {
